@@ -2,5 +2,5 @@ INIT Init
 NEXT Next
 INVARIANT Inv
 CONSTANTS
- Encodings = {1, 2, 3, 4}
+ Encodings = {1, 2, 3, 4, 6, 11}
 CHECK_DEADLOCK FALSE
